@@ -434,9 +434,19 @@ func (x *FnExec) cutLoop(fr *frame, n *node, li *loopInfo) {
 	for _, p := range phis {
 		n.env[p] = x.havocVal(fr.tag+"_"+p.Name(), p.Type(), n.reach)
 	}
+	allocAtHeader := x.heapGet(n.st, "$alloc", "(Array Ref Bool)")
 	for _, h := range x.loopWriteSet(fr, li) {
 		if _, ok := x.q.heaps[h]; ok {
+			before := x.heapGet(n.st, h, x.q.heaps[h])
 			x.heapHavoc(n.st, h)
+			// automatic frame: if every write to h inside the loop goes through an object allocated inside the loop
+			// (locals, composite literals, varargs arrays), everything allocated before the loop keeps its value
+			if strings.HasPrefix(x.q.heaps[h], "(Array Ref ") && x.loopWritesOnlyLoopAllocs(fr, li, h) {
+				x.q.fresh["qv_lf"]++
+				r := fmt.Sprintf("|r?lf%d|", x.q.fresh["qv_lf"])
+				after := n.st.heap[h]
+				x.q.assert(fmt.Sprintf("(forall ((%s Ref)) (! (=> (select %s %s) (= (select %s %s) (select %s %s))) :pattern ((select %s %s))))", r, allocAtHeader, r, after, r, before, r, after, r))
+			}
 		} else if srt := x.stateVarSort(h); srt != "" {
 			n.st.heap[h] = x.q.freshConst("hv_iter", srt)
 		} else {
@@ -810,7 +820,7 @@ func (x *FnExec) instr(fr *frame, n *node, in ssa.Instruction) error {
 		et := in.Type().Underlying().(*types.Slice).Elem()
 		hn, hs := x.elemHeap(et)
 		h := x.heapGet(st, hn, hs)
-		zarr := fmt.Sprintf("((as const (Array %s %s)) %s)", x.q.intSort(), x.q.sortOf(et), x.q.zero(et))
+		zarr := x.q.constArray(fmt.Sprintf("(Array %s %s)", x.q.intSort(), x.q.sortOf(et)), x.q.intSort(), x.q.zero(et))
 		x.heapSet(st, hn, hs, sto(h, r, zarr))
 		env[in] = Val{S: fmt.Sprintf("(mkslice %s %s %s %s)", r, x.q.intLit(0, nil), ln, cp), T: in.Type()}
 	case *ssa.MakeMap:
@@ -959,7 +969,7 @@ func (x *FnExec) mapInit(st *State, mt *types.Map, r string) {
 	d, v, l, ks, vs := x.mapHeaps(mt)
 	ds, vsrt, ls := fmt.Sprintf("(Array Ref (Array %s Bool))", ks), fmt.Sprintf("(Array Ref (Array %s %s))", ks, vs), fmt.Sprintf("(Array Ref %s)", x.q.intSort())
 	x.heapSet(st, d, ds, sto(x.heapGet(st, d, ds), r, fmt.Sprintf("((as const (Array %s Bool)) false)", ks)))
-	x.heapSet(st, v, vsrt, sto(x.heapGet(st, v, vsrt), r, fmt.Sprintf("((as const (Array %s %s)) %s)", ks, vs, x.q.zero(mt.Elem()))))
+	x.heapSet(st, v, vsrt, sto(x.heapGet(st, v, vsrt), r, x.q.constArray(fmt.Sprintf("(Array %s %s)", ks, vs), ks, x.q.zero(mt.Elem()))))
 	x.heapSet(st, l, ls, sto(x.heapGet(st, l, ls), r, x.q.intLit(0, nil)))
 }
 
@@ -1068,7 +1078,7 @@ func (x *FnExec) next(fr *frame, n *node, in *ssa.Next) error {
 	qk := "k!q"
 	d, _, _, ks, _ := x.mapHeaps(mt)
 	ds := fmt.Sprintf("(Array Ref (Array %s Bool))", ks)
-	domAll := fmt.Sprintf("(forall ((%s %s)) (=> (and (not (= %s nil)) (select (select %s %s) %s)) (select %s %s)))", qk, ks, m.S, x.heapGet(st, d, ds), m.S, qk, vis, qk)
+	domAll := fmt.Sprintf("(forall ((%s %s)) (! (=> (and (not (= %s nil)) (select (select %s %s) %s)) (select %s %s)) :pattern ((select %s %s))))", qk, ks, m.S, x.heapGet(st, d, ds), m.S, qk, vis, qk, vis, qk)
 	x.q.assert(implies(and(reach, not(okv)), domAll))
 	nv := x.q.define("iter", srt, ite(okv, sto(vis, k, "true"), vis))
 	st.heap[key] = nv
@@ -1507,3 +1517,54 @@ func structTypeOfHeap(x *FnExec, a *Addr) types.Type {
 }
 
 var _ = strings.Join
+
+// loopWritesOnlyLoopAllocs: every instruction in the loop that may write heap h is a Store whose address is rooted at an
+// Alloc executed inside the loop.
+func (x *FnExec) loopWritesOnlyLoopAllocs(fr *frame, li *loopInfo, h string) bool {
+	var rooted func(v ssa.Value, depth int) bool
+	rooted = func(v ssa.Value, depth int) bool {
+		if depth > 8 {
+			return false
+		}
+		switch a := v.(type) {
+		case *ssa.Alloc:
+			return li.blocks[a.Block()]
+		case *ssa.FieldAddr:
+			return rooted(a.X, depth+1)
+		case *ssa.IndexAddr:
+			if _, isPtr := a.X.Type().Underlying().(*types.Pointer); isPtr {
+				return rooted(a.X, depth+1)
+			}
+			return false
+		}
+		return false
+	}
+	for b := range li.blocks {
+		for _, in := range b.Instrs {
+			ws := map[string]bool{}
+			switch in := in.(type) {
+			case *ssa.Store:
+				x.addrHeapsOfPointerType(in.Addr.Type(), in.Addr, ws)
+				if ws[h] && !rooted(in.Addr, 0) {
+					return false
+				}
+			case *ssa.MapUpdate, *ssa.Next:
+				x.writeSetInstrs(fr.fn, []ssa.Instruction{in}, ws, map[*ssa.Function]bool{})
+				if ws[h] {
+					return false
+				}
+			case *ssa.MakeClosure:
+				x.writeSetFn(in.Fn.(*ssa.Function), ws, map[*ssa.Function]bool{})
+				if ws[h] {
+					return false
+				}
+			case ssa.CallInstruction:
+				x.writeSetCall(fr.fn, in, ws, map[*ssa.Function]bool{})
+				if ws[h] {
+					return false
+				}
+			}
+		}
+	}
+	return true
+}
